@@ -13,6 +13,7 @@ RULE = (
     "exact clauses (support, Z never raises a 0, BEC leaves unerased symbols, p=0 identity, p=1 extreme, input not modified) on every sample; statistical clauses (rate, rate per "
     "input symbol, conditional rate given the neighbour's event at lag 1, lag 2 and across the batch axis) with exact Binomial acceptance intervals at level 1e-9/6000 per test on "
     "N=1e6 (quick) / 4e6 (thorough) symbols. Distinct = configuration; non-trivial = 0<p<1."
+    " Added after the seeded-fault rounds: many short calls (total events and event-free calls, exact binomial), one channel object across alternating alphabets/shapes/dtypes, erasure symbols 2, 0.5, inf, nan."
 )
 ASSUMPTIONS = [
     "per-test level alpha = 1e-9 / 6000 (union bound over at most 6000 planned tests; the evidence reports how many were run)",
